@@ -94,10 +94,10 @@ GCancel ==
 GInv ==
   IF ~conn THEN GApi
   ELSE \E reg \in R(Rng(cregs) \cup {77}) : \E which \in R(1..6) : \E tmo \in W(<<0, 0, 0, 50>>) :
-       \E old \in R(1..(lastinv + 1)), up \in R(1..2) :
+       \E old \in R(1..(lastinv + 1)), up \in R(1..2), rp \in R(BOOLEAN) :
          LET inv == IF which = 1 THEN old ELSE lastinv + up IN
          inv \notin Running(CCur) /\
-         Step([In0 EXCEPT !.op = "inv", !.reg = reg, !.inv = inv, !.tmo = tmo], InvocationFx(CCur, reg, inv, tmo))
+         Step([In0 EXCEPT !.op = "inv", !.reg = reg, !.inv = inv, !.tmo = tmo, !.prog = rp], InvocationRpFx(CCur, reg, inv, tmo, rp))
 
 GIntr ==
   IF ~conn THEN GApi
@@ -106,8 +106,10 @@ GIntr ==
 
 GRelease ==
   IF DOMAIN invs = {} THEN GInv
-  ELSE \E inv \in R(IF Running(CCur) # {} THEN Running(CCur) ELSE DOMAIN invs) : \E how \in R({"yield", "error"}) :
-         Step([In0 EXCEPT !.op = "release", !.inv = inv, !.how = how], ReleaseFx(CCur, inv, how))
+  ELSE \E inv \in R(IF Running(CCur) # {} THEN Running(CCur) ELSE DOMAIN invs) : \E how \in W(<<"yield", "yield", "error", "prog", "prog">>) :
+         IF how = "prog"
+         THEN inv \in Running(CCur) /\ Step([In0 EXCEPT !.op = "sendprog", !.inv = inv], SendProgFx(CCur, inv))
+         ELSE Step([In0 EXCEPT !.op = "release", !.inv = inv, !.how = how], ReleaseFx(CCur, inv, how))
 
 GEvent ==
   IF ~conn THEN GApi
